@@ -1,21 +1,37 @@
-"""C10 — exact in-sphere predicate returns the true sign on the integer grid; grid map stays in domain."""
-from . import insphere
-from .. import smt, runner, extract
+"""C10 — exact in-sphere predicate returns the true sign on the integer grid; the grid map stays in its domain."""
+from . import insphere, grid
+from .. import smt, runner, extract, kani
+
+A_ROUND = ("A-ROUND: the float evaluation of the handful of operations computing a mirror image (HalfSpace::right_loc, glam project_onto) "
+           "or a periodic image is within 2^-30 * width of its real value; stated, not machine-checked (the E3 harnesses include that slack)")
 
 
 def run(tier, seed):
     obs, m = insphere.obligations("C10.insphere", feature="ibig", with_meaning=True)
-    smt.discharge_all(obs, tier)
-    results = [runner.from_smt(o, insphere.replay_model) for o in obs]
+    for o in obs: o.replay = insphere.replay_model
+    gobs, units, extra = grid.e2_obligations("C10.grid")
+    smt.discharge_all(obs + gobs, tier)
+    results = [runner.from_smt(o) for o in obs + gobs]
+    results += grid.kani_results("C10.grid", tier)
     n, bad = insphere.validate_translation(m, seed, 200 if tier == "quick" else 5000)
     if bad:
         raise extract.Undecided("translation mismatch (symbolic term vs compiled function): %r" % bad[:2])
     meta = {
         "level": "proof",
-        "functions": [{"fn": m["unit"], "slice_sha": m["slice_sha"]}],
-        "assumptions": ["A-BIG (ibig implements Z exactly)", "rustc -Zunpretty=expanded is a faithful macro expansion"],
-        "trusted_base": ["vx (syn 2 dump)", "vlib/symex.py", "z3 4.8.12 / z3 5.1 / cvc5 1.0", "rustc nightly macro expansion"],
-        "extra_cov": {"traces_validated_against_impl": n},
-        "explanation": "",
+        "functions": [{"fn": m["unit"], "slice_sha": m["slice_sha"]}] + [{"fn": u.label, "slice_sha": u.sha} for u in units]
+                     + [{"fn": grid.UNIT_E3, "backend": "Kani on the real crate"}],
+        "assumptions": ["A-BIG (ibig implements Z exactly)", "rustc -Zunpretty=expanded is a faithful macro expansion",
+                        "A-REAL for the E2 obligations on cuboid / iloc rescaling / right_loc / orientation (f64 read as reals)",
+                        A_ROUND,
+                        "E3 windows: quick = width in [0.5,4], |anchor| <= 4*width per axis; thorough adds width in [1e-6,1e6], |anchor| <= 1024*width on x "
+                        "(complete over all bit patterns in the window; the window is a stated bound on inputs)",
+                        "orientation is proved for the eight initial vertices only; its preservation by clip_by_plane's (cur,next,p_idx) triples is geometric and not decided",
+                        "bit-precise monotonicity of iloc is not decided (Kani does not finish); monotonicity is proved for the real-valued rescaling only"],
+        "trusted_base": ["vx (syn 2 dump)", "vlib/symex.py", "vlib/ring.py", "z3 4.8.12 / z3 5.1 / cvc5 1.0", "rustc nightly macro expansion",
+                         "Kani 0.68 / CBMC 6.11 IEEE-754 model, CaDiCaL / kissat"],
+        "extra_cov": dict(extra, traces_validated_against_impl=n),
+        "explanation": "Unit 1: in_sphere_test_exact (macro-expanded) = sign of the 24-term Leibniz determinant, no overflow, plus the code-independent meaning lemma. "
+                       "Unit 2: the eight initial duals are positively oriented. Unit 3: every queryable position (closed interval, mirrors and periodic images) "
+                       "stays inside iloc's [1,2) rescaling: over the reals for all boxes (E2) and bit-precisely on the real crate for the stated windows (E3).",
     }
     return results, meta
